@@ -6,14 +6,15 @@ from checks import common, apihist, filecmp
 from checks.apihist import rand_lit, conforming_history, trim
 LEVEL = 'proof'
 
-def obs(snap):
-    """the content C01 speaks about, canonical: names upper-cased, strings right-trimmed, DATA_START ignored"""
+def obs(snap, loaded=False):
+    """the content C01 speaks about, canonical: names upper-cased, DATA_START ignored; the strings of the SAVED object are
+    right-trimmed (the format pads them), those of the LOADED one are taken as they are: a loaded "   " is not a saved ''"""
     gs = []
     for g in snap.groups:
         if g['name'] == b'' and not g['params']: continue
         ps = []
         for p in g['params']:
-            vals = [v.rstrip(b' ') for v in p['vals']] if p['type'] == 'C' else list(p['vals'])
+            vals = [(v if loaded else v.rstrip(b' ')) for v in p['vals']] if p['type'] == 'C' else list(p['vals'])
             if (g['name'].upper(), p['name'].upper()) == (b'POINT', b'DATA_START'): vals = ['<derived>']
             ps.append((p['name'].upper(), p['desc'], p['lock'], p['type'], tuple(p['dims']), tuple(vals)))
         gs.append((g['name'].upper(), g['desc'], g['lock'], tuple(ps)))
@@ -117,7 +118,7 @@ def run(rep, work, rng, tier):
             continue
         if len(snaps) < 2: continue
         s1 = harness.Snap(snaps[-1][1]); compared += 1
-        for d in diff_obs(obs(s0), obs(s1))[:1]:
+        for d in diff_obs(obs(s0), obs(s1, loaded=True))[:1]:
             comp = d.split(' ')[0]; comps[comp.split('[')[0]] = comps.get(comp.split('[')[0], 0) + 1
             if rep.violation('oracle', 'content differs after save and load: %s' % d,
                              script=[l for l in lines if not l.startswith('fsum')], signature=classify(s0, d)): bad += 1
